@@ -155,7 +155,7 @@ theorem latOf_setLat (s : Session) (pid : Nat) (l : Lat) : (s.setLat pid l).latO
     (a connection that is in no session is refused with UNAUTHORIZED, `notJoined`). -/
 theorem C18_start (cfg : Cfg) (s : Session) (p : Part) (rid iter hint : Nat) (wallet : String) :
     (3 ≤ iter ∧ iter ≤ 50 ∧ wallet ≠ "" →
-      (s.core cfg p (.signedLatency rid iter wallet) hint).2.1 = [(p.conn, .pingReq hint)] ∧
+      (s.core cfg p (.signedLatency rid iter wallet) hint).2.1 = s.abandoned p ++ [(p.conn, .pingReq hint)] ∧
       (s.core cfg p (.signedLatency rid iter wallet) hint).1.latOf p.pid =
         { started := true, rid, iter, open_ := [hint], done := [], uuid := s.uuid, wallet }) ∧
     (¬(3 ≤ iter ∧ iter ≤ 50 ∧ wallet ≠ "") →
@@ -183,6 +183,21 @@ theorem C18_start (cfg : Cfg) (s : Session) (p : Part) (rid iter hint : Nat) (wa
         · simpa using hw
         · exact absurd ⟨by omega, by omega, hw⟩ h
       simp [hr, hw]
+
+/-- **A measurement that is given up is answered.**  Starting a measurement while another one of the same participant
+    is still running answers the request of the one given up with CONFLICT (exactly once: the new measurement takes its
+    place); when none is running nothing but the first ping is sent. -/
+theorem C18_restart_answers_abandoned (s : Session) (p : Part) :
+    ((s.latOf p.pid).started = true ∧ 0 < (s.latOf p.pid).iter → s.abandoned p = [(p.conn, .error (s.latOf p.pid).rid ecConflict)]) ∧
+    (¬((s.latOf p.pid).started = true ∧ 0 < (s.latOf p.pid).iter) → s.abandoned p = []) := by
+  unfold Session.abandoned
+  constructor
+  · rintro ⟨h1, h2⟩; simp [h1, h2]
+  · intro h
+    by_cases h1 : (s.latOf p.pid).started = true
+    · have : ¬ 0 < (s.latOf p.pid).iter := fun h2 => h ⟨h1, h2⟩
+      simp [h1, this]
+    · simp [h1]
 
 end Hagall.Props.C18
 
